@@ -260,4 +260,5 @@ def run(chk, tier):
     # a file object's JSON lists the file meta group in the order into_element_iter yields it
     from . import shared
     shared.meta_order_ascending(chk, fx, "meta-keys-ascending")
+    shared.text_values_as_stored(chk, fx, "text-values-as-stored")
     chk.undecided.append("the JSON text of executed output; byte order of to_bytes on big-endian hosts; serde_json's number rendering")
